@@ -56,12 +56,12 @@ pub fn run() -> i32 {
     quiet_panics();
     let mut ctx = Ctx::new("C13", "exploration");
     let seed = ctx.seed;
-    let nseeds = ctx.tier.pick(32u64, 256);
-    ctx.rule = format!("full products: crypto_box_seed_keypair[_inplace] / KeyPair::from_seed (stack and Vec containers) for every seed length 0..=128 x 4 content classes against the construction SHA-512(seed)[..32] -> base-point multiplication evaluated with libsodium primitives (and libsodium's own crypto_box_seed_keypair for 32-byte seeds); crypto_kx_seed_keypair, crypto_sign_seed_keypair, SigningKeyPair::from_seed/from_secret_key for the 5-member value alphabet + {} seeded seeds; KeyPair::from_secret_key for secrets incl. unclamped patterns; PwHash::derive_keypair at minimal cost x 4 passwords x both algorithms x 5 Config hash/salt-length settings; Ed25519->X25519 conversion of every generated signing pair: both halves == libsodium and base(x_sk) == x_pk; non-trivial = case executed in both implementations", nseeds);
+    let nseeds = ctx.tier.pick(256u64, 4096);
+    ctx.rule = format!("full products: crypto_box_seed_keypair[_inplace] / KeyPair::from_seed (stack and Vec containers) for every seed length 0..=300 (1100 thorough) x 4 content classes against the construction SHA-512(seed)[..32] -> base-point multiplication evaluated with libsodium primitives (and libsodium's own crypto_box_seed_keypair for 32-byte seeds); crypto_kx_seed_keypair, crypto_sign_seed_keypair, SigningKeyPair::from_seed/from_secret_key for the 5-member value alphabet + {} seeded seeds; KeyPair::from_secret_key for secrets incl. unclamped patterns; PwHash::derive_keypair at minimal cost x 4 passwords x both algorithms x 5 Config hash/salt-length settings; Ed25519->X25519 conversion of every generated signing pair: both halves == libsodium and base(x_sk) == x_pk; non-trivial = case executed in both implementations", nseeds);
     ctx.assume("dishonest Ed25519 public keys (small-order / non-canonical) are outside this property's quantifier; libsodium refuses them and dryoc does not — recorded as an observation, never alarmed");
 
     // box seeds of every length
-    let units: Vec<usize> = (0..=128).collect();
+    let units: Vec<usize> = (0..=ctx.tier.pick(300usize, 1100)).collect();
     let st = par_units(&units, |&len, st| {
         for ci in 0..4 {
             let s = cval(seed, ci, len);
